@@ -26,6 +26,7 @@ import (
 	"github.com/vx-labs/wasp/v4/wasp/ack"
 	"github.com/vx-labs/wasp/v4/wasp/audit"
 	"github.com/vx-labs/wasp/v4/wasp/distributed"
+	"github.com/vx-labs/wasp/v4/wasp/expiration"
 	"github.com/vx-labs/wasp/v4/wasp/sessions"
 	"github.com/vx-labs/wasp/v4/wasp/transport"
 	"go.uber.org/zap"
@@ -47,7 +48,7 @@ func (stressFamily) Gen(n int, seed int64, mode, tier string) []interface{} {
 	if tier == "thorough" {
 		rounds = 2000
 	}
-	whats := []string{"registry", "pool", "ackqueue", "tries", "dstate", "session", "broker"}
+	whats := []string{"registry", "pool", "ackqueue", "ackrace", "explist", "tries", "dstate", "session", "broker"}
 	for i := 0; i < n; i++ {
 		for _, w := range whats {
 			r := rounds
@@ -264,6 +265,75 @@ func (stressFamily) Exec(id int, raw json.RawMessage) Case {
 			fired.Range(func(k, v interface{}) bool { n++; return true })
 			if n != total {
 				fail("ackqueue: %d registrations, %d resolved after the final sweep", total, n)
+			}
+		case "ackrace":
+			// the same in-flight key is resolved by several goroutines at once (duplicate acknowledgements,
+			// an acknowledgement racing the sweep that expires the entry): exactly one of them wins
+			q := ack.NewQueue()
+			for i := 0; i < R; i++ {
+				var calls, acked int64
+				mid := int32(1 + i%1000)
+				past := i%2 == 0 // the entry is already due: the sweep competes too
+				dl := time.Now().Add(3 * time.Second)
+				if past {
+					dl = time.Now().Add(-2 * time.Second)
+				}
+				if err := q.Insert("s", &packet.Publish{Header: &packet.Header{Qos: 1}, MessageId: mid}, dl, func(bool, packet.Packet, packet.Packet) {
+					atomic.AddInt64(&calls, 1)
+				}); err != nil {
+					fail("ackrace: insert failed: %v", err)
+				}
+				var wg2 sync.WaitGroup
+				start := make(chan struct{})
+				for g := 0; g < 4; g++ {
+					wg2.Add(1)
+					go func(g int) {
+						defer wg2.Done()
+						<-start
+						if g == 3 {
+							q.Expire(time.Now())
+						} else if q.Ack("s", &packet.PubAck{Header: &packet.Header{}, MessageId: mid}) == nil {
+							atomic.AddInt64(&acked, 1)
+						}
+					}(g)
+				}
+				close(start)
+				wg2.Wait()
+				q.Expire(time.Now().Add(time.Hour))
+				if c := atomic.LoadInt64(&calls); c != 1 {
+					fail("ackrace: the entry was resolved %d times (accepted acknowledgements: %d)", c, acked)
+				}
+				if acked > 1 {
+					fail("ackrace: %d acknowledgements accepted for one entry", acked)
+				}
+			}
+		case "explist":
+			// many goroutines register distinct items due in the same (not yet existing) second and
+			// delete them again: afterwards nothing is left to expire
+			for round := 0; round < R/10+1; round++ {
+				l := expiration.NewList()
+				base := time.Now().Add(time.Duration(5+round) * time.Second)
+				par(func(w int, rng *rand.Rand) {
+					for i := 0; i < 20; i++ {
+						d := base.Add(time.Duration(rng.Intn(400)) * time.Millisecond)
+						id := fmt.Sprintf("w%d-%d", w, i)
+						l.Insert(id, d)
+						if i%2 == 0 {
+							l.Delete(id, d)
+						}
+					}
+				})
+				left := l.Expire(base.Add(time.Hour))
+				if len(left) != W*10 {
+					fail("explist: %d items expire, %d were registered and not deleted", len(left), W*10)
+				}
+				seen := map[interface{}]bool{}
+				for _, x := range left {
+					if seen[x] {
+						fail("explist: item %v expires twice", x)
+					}
+					seen[x] = true
+				}
 			}
 		case "tries":
 			st := subscriptions.NewTree()
